@@ -164,10 +164,11 @@ CHECKS["C06"] = {
             "other thread is a writer (C06_eval_under_lock, resting on C01w_exclusion); in every reachable world the same_condition rings partition "
             "mu->waiters and every scanner's private lists into runs of equivalent waiters (C06_RingInv_reachable), the scan only skips waiters "
             "whose condition is false under a truth-preserving eq (C06_scan_sound), and whenever MU_ALL_FALSE is set with no writer, every queued "
-            "condition is false in the current state (C06_allfalse_sound) -- any threads / programs / schedules.  "
+            "condition is false in the current state (C06_allfalse_sound); no reachable quiescent world has the mutex free and a queued waiter whose "
+            "condition is true (C06_no_stuck, via the designated-waker invariant HA/HB/HC) -- any threads / programs / schedules.  "
             "Lock-step replay with queue and ring snapshots; termination + evaluation oracles over conditional-wait scenarios.",
     "design_ref": "DESIGN.md section 4, C06",
-    "note": "no-stuck (every waiter whose condition became true returns) is partial: stuck detector + quiescent-state observer (coverage.partial).",
+    "note": "no lost wake-up is a theorem on the model of the REPAIRED code (it was false before: F13, F14); fair-schedule liveness and unlock_without_wakeup's clause are oracle-decided (coverage.partial).",
     "technique": "Coq invariants and pure-function lemmas over source-regenerated model + lock-step trace inclusion + scenario oracles",
 }
 CHECKS["C05"] = {
